@@ -10,7 +10,8 @@ LEVEL = "exploration"
 N = {"quick": 1400, "thorough": 8000}
 RULE = ("cases = (constraint list, context|None) or a contract to build/simplify, <=6 terms over <=5 variables, with planted "
         "redundancy (duplicates, scalings, positive combinations, loosened copies, terms implied only via the context), tight "
-        "and nearly-tight margins, infeasible systems; number classes small-integer/dyadic, decimal, wide-magnitude; "
+        "and nearly-tight margins, infeasible systems, variable-free terms (satisfied / violated), -1/-2 twins across list and context, "
+        "badly scaled families on which the solver's first answer is not optimal; number classes small-integer/dyadic, decimal, wide-magnitude; "
         "non-trivial = the call returned and (a redundancy was planted or a term was actually removed); distinct = SHA-1 of the case")
 ASSUMPTIONS = ["a remaining constraint counts as droppable only if the others (with the context) imply it with margin 1e-4*(1+|c|) over all reals",
                "a ValueError counts as wrong only if the system stays feasible when every constant is tightened by 1e-4*(1+|c|)"]
@@ -65,6 +66,25 @@ def _ill_scaled(draw):
 
 
 @st.composite
+def _presolve_family(draw):
+    """the family around the regression input of the presolve fix: one row mixing order-one coefficients with a tiny one, in a
+    context that has the same direction without the tiny part and a row with a huge coefficient; on most members the solver's
+    presolved first solve is not optimal, so the second-attempt logic is what answers. Signs of all three variables vary, so the
+    feasible region lies in any orthant."""
+    sa, sb, sc = (draw(st.sampled_from([1.0, -1.0])) for _ in range(3))
+    eps = draw(st.sampled_from([0.001, 0.002, 2.0 ** -10]))
+    big = draw(st.sampled_from([1e4, 2e4, 1e5]))
+    terms = [[{"a": sa, "b": sb, "c": sc * eps}, 0.0]]
+    ctx = [[{"a": sa}, float(draw(st.sampled_from([0, -1, -2, 1])))], [{"a": sa, "b": sb}, 0.0], [{"a": sa, "c": -sc * big}, 0.0]]
+    if draw(st.booleans()):
+        ctx.append([{"a": sa}, float(draw(st.sampled_from([-1, -3])))])
+    if draw(st.integers(0, 3)) == 0:
+        terms.append([{"b": sb}, float(draw(st.sampled_from([0, 1, 5])))])
+    ctx = list(draw(st.permutations(ctx)))
+    return {"kind": "tl", "terms": terms, "ctx": ctx, "planted": ["presolve-family"], "numclass": "wide"}
+
+
+@st.composite
 def _ctx_chain(draw):
     """few terms, each redundant only through a chain of 2-4 context terms over auxiliary variables"""
     pool = ["a", "b"]
@@ -97,6 +117,8 @@ def _tl_case(draw):
         return draw(_ill_scaled())
     if draw(st.integers(0, 9)) == 0:
         return draw(_ctx_chain())
+    if draw(st.integers(0, 11)) == 0:
+        return draw(_presolve_family())
     nv = draw(st.integers(1, 5))
     pool = P[:nv]
     numclass = draw(st.sampled_from(["small", "small", "small", "decimal", "wide"]))
@@ -144,6 +166,29 @@ def _tl_case(draw):
         tgt = case["terms"] if (ctx is None or draw(st.booleans())) else case["ctx"]
         tgt.insert(draw(st.integers(0, len(tgt))), [{}, float(draw(st.sampled_from([0, 0, 1, 2])))])
         case["planted"] = planted + ["varfree-satisfied"]
+    elif numclass == "small" and draw(st.integers(0, 11)) == 0:
+        # a violated constraint without variables (0 <= -delta), optionally next to an unrelated large constant: the list is
+        # unsatisfiable whatever else it says
+        tgt = case["terms"] if (ctx is None or draw(st.booleans())) else case["ctx"]
+        tgt.insert(draw(st.integers(0, len(tgt))), [{}, -float(draw(st.sampled_from([0.5, 1, 2 ** -10, 0.0005, 1e-3])))])
+        if draw(st.booleans()):
+            tgt.insert(draw(st.integers(0, len(tgt))), [{"q": float(draw(st.sampled_from([1, -1])))}, float(draw(st.sampled_from([1e3, 2e3, 1e4, 1e6])))])
+        case["planted"] = planted + ["varfree-violated"]
+    elif numclass == "small" and draw(st.integers(0, 9)) == 0:
+        # twins that differ only by -1 versus -2 in one place (these two floats have the same hash in CPython): the looser one in
+        # the context, the tighter one in the list
+        src = draw(st.sampled_from(base))
+        if draw(st.booleans()):
+            v = draw(st.sampled_from(sorted(src[0])))
+            loose, tight = [dict(src[0], **{v: -1.0}), src[1]], [dict(src[0], **{v: -2.0}), src[1]]
+        else:
+            loose, tight = [dict(src[0]), -1.0], [dict(src[0]), -2.0]
+        if draw(st.integers(0, 3)) == 0:
+            loose, tight = tight, loose
+        case["ctx"] = (case["ctx"] or []) + [loose]
+        case["terms"].insert(draw(st.integers(0, len(case["terms"]))), tight)
+        case["terms"] = case["terms"][:7]
+        case["planted"] = planted + ["hash-twin"]
     if draw(st.integers(0, 3)) == 0:
         case["prime"] = draw(st.sampled_from(["relax", "refine", "simplify"]))
     return case
